@@ -111,6 +111,46 @@ func rangeLoops(fn *ssa.Function) []*rangeLoop {
 	return out
 }
 
+// allLoops is rangeLoops plus every other for-loop (any condition, e.g. a down-counting index or i < n):
+// over is then "cond:" + the loop condition.
+func allLoops(fn *ssa.Function) []*rangeLoop {
+	out := rangeLoops(fn)
+	have := map[*ssa.BasicBlock]bool{}
+	for _, l := range out {
+		have[l.header] = true
+	}
+	for _, b := range fn.Blocks {
+		if have[b] || len(b.Instrs) == 0 || b.Comment != "for.loop" {
+			continue
+		}
+		iff, ok := b.Instrs[len(b.Instrs)-1].(*ssa.If)
+		if !ok {
+			continue
+		}
+		l := &rangeLoop{header: b, over: "cond:" + an.CondString(iff.Cond, false), body: map[*ssa.BasicBlock]bool{}}
+		seen := map[*ssa.BasicBlock]bool{b: true}
+		stack := []*ssa.BasicBlock{b.Succs[0]}
+		var fwd []*ssa.BasicBlock
+		for len(stack) > 0 {
+			x := stack[len(stack)-1]
+			stack = stack[:len(stack)-1]
+			if seen[x] {
+				continue
+			}
+			seen[x] = true
+			fwd = append(fwd, x)
+			stack = append(stack, x.Succs...)
+		}
+		for _, x := range fwd {
+			if reaches(x, b) {
+				l.body[x] = true
+			}
+		}
+		out = append(out, l)
+	}
+	return out
+}
+
 func reaches(from, to *ssa.BasicBlock) bool {
 	seen := map[*ssa.BasicBlock]bool{}
 	stack := []*ssa.BasicBlock{from}
@@ -1107,6 +1147,33 @@ func boundedMissingDeps(h *ssa.Function) bool {
 				ok = false
 			}
 		}
+	}
+	// the walk goes on exactly over the links dig created: Unwrap is reached over the "is a digError" edge and
+	// never over its negation (a link dig did not create ends the search; a dig link that is neither of the two
+	// above does not - an optional parameter is unavailable also when the dependencies of its constructor's
+	// dependencies are missing)
+	isDig := an.BoolEdges(h, func(v ssa.Value) bool { return isTA(v, "digError") || isTA(v, "Error") }, true)
+	notDig := an.BoolEdges(h, func(v ssa.Value) bool { return isTA(v, "digError") || isTA(v, "Error") }, false)
+	if len(isDig) == 0 || len(notDig) == 0 {
+		return false
+	}
+	reach := func(es []an.Edge) bool {
+		for _, e := range es {
+			first := e.From.Succs[e.Succ].Instrs[0]
+			for _, u := range uwi {
+				if first == u {
+					return true
+				}
+				// stay inside this iteration: do not pass the loop's other tests again
+				if p, _ := an.PathTo(h, first, an.IsInstr(u), an.NewGates().AddEdges(hit...).AddEdges(stop...).AddEdges(isDig...).AddEdges(notDig...)); p != nil {
+					return true
+				}
+			}
+		}
+		return false
+	}
+	if !reach(isDig) || reach(notDig) {
+		ok = false
 	}
 	return ok && len(uw) > 0
 }
